@@ -3,7 +3,9 @@ pub mod c01;
 pub mod c02;
 pub mod c07;
 pub mod c08;
+pub mod c09;
 pub mod c13;
+pub mod c14;
 pub mod c17;
 pub mod hist;
 pub mod c18;
@@ -22,6 +24,8 @@ pub fn run(id: &str, tier: Tier) -> i32 {
         "C11" => hist::run("C11", tier),
         "C12" => hist::run("C12", tier),
         "C13" => hist::run("C13", tier),
+        "C09" => c09::run(tier),
+        "C14" => c14::run(tier),
         "C07" => c07::run(tier),
         "C08" => c08::run(tier),
         "C17" => c17::run(tier),
@@ -53,6 +57,8 @@ pub fn replay(id: &str, path: &str) -> i32 {
         "C02" => c02::replay(&v),
         "C07" => c07::replay(&v),
         "C08" => c08::replay(&v),
+        "C09" => c09::replay(&v),
+        "C14" => c14::replay(&v),
         "C17" => c17::replay(&v),
         "C19" => c19::replay(&v),
         "C20" => c20::replay(&v),
